@@ -8,7 +8,9 @@ use text_utils::dictionary::{Dictionary, DictionaryDistanceMeasure};
 // slot -> character; kinds: s = space, l = letter, p = punctuation
 // slot 7 (word mode only) is the spacing acute accent U+00B4, whose NFKC form is a blank followed by the combining acute:
 // in the cleaned, normalised text it is a word separator followed by a letter-like symbol (id 7 = U+0301)
-const CH: [(&str, &str); 7] = [(" ", "s"), ("x", "l"), ("y", "l"), ("z", "l"), ("-", "p"), ("ä", "l"), ("\u{00B4}", "l")];
+// slot 8 is a letter of two code points without a precomposed form (Devanagari ka + vowel sign i, both alphabetic): one
+// character in the character modes
+const CH: [(&str, &str); 8] = [(" ", "s"), ("x", "l"), ("y", "l"), ("z", "l"), ("-", "p"), ("ä", "l"), ("\u{00B4}", "l"), ("\u{0915}\u{093F}", "l")];
 const BOW: i64 = 9001;
 const EOW: i64 = 9002;
 
@@ -107,7 +109,7 @@ pub fn gen(seed: u64, n: usize) -> Vec<Value> {
             // drained the file before the others start, so nothing is ever merged across workers
             let nl = if k % 50 == 7 { rng.random_range(300..=600) } else { rng.random_range(0..=8) };
             let lines: Vec<Vec<u64>> = (0..nl)
-                .map(|_| (0..rng.random_range(0..=12)).map(|_| [1u64, 1, 2, 2, 3, 3, 4, 5, 6][rng.random_range(0..9)]).collect())
+                .map(|_| (0..rng.random_range(0..=12)).map(|_| [1u64, 1, 2, 2, 3, 3, 4, 5, 6, 8][rng.random_range(0..10)]).collect())
                 .collect();
             let queries: Vec<Vec<u64>> = (0..3).map(|_| (0..rng.random_range(0..=4)).map(|_| rng.random_range(2..=4u64)).collect()).collect();
             let ms = [-1i64, 0, 1, 2, 3, 5, 50][rng.random_range(0..7)];
